@@ -997,3 +997,44 @@ package openflow13
 //@   allowglobals
 //@   requires 0 <= idx && idx <= 15
 //@   ensures[C03] be16(b, 0) == 1 && u8(b, 2) == uint8(idx) * 2 && u8(b, 3) == 4 && len(b) == 8 && be32(b, 4) == data
+
+//@ func lemmaContPacketIn(p, port, dst, src, raw) (d, err, b1, b2) [C05]
+//@   inlinecalls
+//@   modreach
+//@   allowglobals
+//@   unroll 4
+//@   modifies p.Match, p.Data, p.Header.Length
+//@   requires p != nil && raw != nil && len(dst) == 6 && len(src) == 6 && p.Header.Version == 4 && p.Header.Type == 10 && len(p.pad) <= 2 && allzero(p.pad) && blen(raw) <= 1500
+//@   ensures err == nil && d != nil && typeis(d, *PacketIn)
+//@   ensures err == nil ==> d.(*PacketIn).Header.Xid == p.Header.Xid && d.(*PacketIn).BufferId == p.BufferId && d.(*PacketIn).TotalLen == p.TotalLen && d.(*PacketIn).Reason == p.Reason && d.(*PacketIn).TableId == p.TableId && d.(*PacketIn).Cookie == p.Cookie
+//@   ensures err == nil ==> len(d.(*PacketIn).Match.Fields) == 1 && typeis(d.(*PacketIn).Match.Fields[0].Value, *InPortField) && d.(*PacketIn).Match.Fields[0].Value.(*InPortField).InPort == port && d.(*PacketIn).Data.Ethertype == 34997 && bytes_eq(d.(*PacketIn).Data.HWDst, 0, dst, 0, 6) && bytes_eq(d.(*PacketIn).Data.HWSrc, 0, src, 0, 6)
+//@   ensures err == nil ==> len(b1) == 56 + blen(raw) && len(b2) == len(b1) && bytes_eq(b2, 0, b1, 0, len(b1))
+
+//@ func lemmaContFlowRemoved(cookie, prio, reason, table, dsec, dnsec, idle, hard, pkts, bytes, port) (f, d, err, b1, b2) [C05]
+//@   inlinecalls
+//@   modreach
+//@   allowglobals
+//@   unroll 4
+//@   ensures err == nil && d != nil && typeis(d, *FlowRemoved)
+//@   ensures err == nil ==> d.(*FlowRemoved).Header.Xid == f.Header.Xid && d.(*FlowRemoved).Cookie == cookie && d.(*FlowRemoved).Priority == prio && d.(*FlowRemoved).Reason == reason && d.(*FlowRemoved).TableId == table && d.(*FlowRemoved).DurationSec == dsec && d.(*FlowRemoved).DurationNSec == dnsec && d.(*FlowRemoved).IdleTimeout == idle && d.(*FlowRemoved).HardTimeout == hard && d.(*FlowRemoved).PacketCount == pkts && d.(*FlowRemoved).ByteCount == bytes
+//@   ensures err == nil ==> len(d.(*FlowRemoved).Match.Fields) == 1 && typeis(d.(*FlowRemoved).Match.Fields[0].Value, *InPortField) && d.(*FlowRemoved).Match.Fields[0].Value.(*InPortField).InPort == port
+//@   ensures err == nil ==> len(b1) == 64 && len(b2) == len(b1) && bytes_eq(b2, 0, b1, 0, len(b1))
+
+//@ func lemmaContPortStatus(reason, portNo, config, state, curr, hw, name) (s, d, err, b1, b2) [C05]
+//@   inlinecalls
+//@   modreach
+//@   allowglobals
+//@   unroll 4
+//@   requires len(hw) == 6 && len(name) == 16
+//@   ensures err == nil && d != nil && typeis(d, *PortStatus)
+//@   ensures err == nil ==> d.(*PortStatus).Reason == reason && d.(*PortStatus).Desc.PortNo == portNo && d.(*PortStatus).Desc.Config == config && d.(*PortStatus).Desc.State == state && d.(*PortStatus).Desc.Curr == curr && bytes_eq(d.(*PortStatus).Desc.HWAddr, 0, hw, 0, 6) && bytes_eq(d.(*PortStatus).Desc.Name, 0, name, 0, 16)
+//@   ensures err == nil ==> len(b1) == 80 && len(b2) == len(b1) && bytes_eq(b2, 0, b1, 0, len(b1))
+
+//@ func lemmaContErrorMsg(etype, code, payload) (e, d, err, b1, b2) [C05]
+//@   inlinecalls
+//@   modreach
+//@   allowglobals
+//@   requires etype != 65535 && len(payload) <= 1000
+//@   ensures err == nil && d != nil && typeis(d, *ErrorMsg)
+//@   ensures err == nil ==> d.(*ErrorMsg).Type == etype && d.(*ErrorMsg).Code == code && blen(d.(*ErrorMsg).Data) == len(payload)
+//@   ensures err == nil ==> len(b1) == 12 + len(payload) && len(b2) == len(b1) && bytes_eq(b2, 0, b1, 0, len(b1))
